@@ -17,12 +17,16 @@ Actors
 * the **runner operations**, serialised on the runner's RPC worker thread
   (program counter `rpc`): `start` = `get_state` region + `start_task` region,
   `stop` = `stop_task` region + `_stop_requested.set()`, `join` (blocking:
-  enabled only when the task thread has ended), `is_running`, `set_settings`,
+  enabled only when the task thread has ended; `get_state` region, then `_joined = True`), `is_running`, `set_settings`,
   `get_settings`, `get_pending_settings`, `get_status`.
   `__enter__` = `start`.  The compositions `__exit__` (= `stop(); join()`) and `release_rpc_object`
   (= `if not _joined: stop(); join()`, run by the RPC worker when the object is removed from the context; whatever
   `join` raises there is logged and dropped, and the runner is gone afterwards: `phase = removed`) are sequenced by
   the worker's program counter (`compStop c` → `stopMid c` → `compJoin c`).
+* `stop_task` called **outside** the RPC worker (`extStopRegion`, `extStopSet`): by `_request_shutdown`
+  (`QMI_Thread.shutdown()`, any thread, any time) and by the task itself (`QMI_LoopTask` with policy TERMINATE calls
+  `self._task_runner.stop()` from the task thread).  These are not serialised with the runner operations; `extMid`
+  counts such calls that are between their region and the flag write.
 * `update_settings` = `if fifo` / `fifo.pop()` + assignment / `sig_settings_updated.publish(self.settings)`;
   the task body may also write `self.status` (`setStatus`).
 
@@ -31,7 +35,7 @@ turn out to be unreachable (failing `assert`s) are modelled as they are and
 proved unreachable in `Props/C10.lean`.
 
 Ghost fields (never read by a guard): `runs`, `started`, `stopFirst`,
-`runOutcome`, `posted`, `lastPosted`, `adopted`, `published`.
+`runOutcome`, `posted`, `lastPosted`, `adopted`, `published`, `shut`.
 
 Core Lean only (the driver exe links this file).
 -/
@@ -82,6 +86,7 @@ inductive Rpc
   | compStop (c : Comp)     -- composition entered, its `stop()` not yet begun
   | stopMid (c : Comp)      -- `stop`: between the `stop_task` region and `_stop_requested.set()`
   | compJoin (c : Comp)     -- the composition's `stop()` returned, its `join()` not yet done
+  | joinMid (c : Comp)      -- `join`: past `thread.join()` and the `get_state` region, `_joined` not yet written
   deriving DecidableEq, Repr
 
 /-- where the worker continues when a `stop()` returns -/
@@ -113,6 +118,7 @@ structure State where
   settings  : Option Nat      -- `task.settings`
   joined    : Bool            -- `runner._joined`
   status    : Option Nat      -- `task.status`
+  extMid    : Nat             -- `stop_task` calls from outside the RPC worker, past their region, flag not yet written
   -- ghost
   runs       : Nat            -- number of invocations of `task.run()`
   started    : Bool           -- a `start_task` region moved READY_TO_RUN → RUNNING
@@ -122,13 +128,14 @@ structure State where
   lastPosted : Option Nat     -- the most recently posted value
   adopted    : List Nat       -- values the task adopted (`self.settings = fifo.pop()`), oldest first
   published  : List Nat       -- values handed to `sig_settings_updated.publish`, oldest first
+  shut       : Bool           -- some `stop_task` region ran outside the RPC worker (shutdown / self-stop)
   deriving DecidableEq, Repr
 
 def init : State :=
   { st := .initial, exc := false, pc := .init, phase := .ctor0, rpc := .idle, stopReq := false,
-    slot := none, settings := none, joined := false, status := none,
+    slot := none, settings := none, joined := false, status := none, extMid := 0,
     runs := 0, started := false, stopFirst := false, runOutcome := none, posted := false, lastPosted := none,
-    adopted := [], published := [] }
+    adopted := [], published := [], shut := false }
 
 inductive Act
   -- task thread
@@ -137,9 +144,11 @@ inductive Act
   -- runner constructor
   | ctorWait | ctorGet
   -- runner operations
-  | startCheck | startKick | stopRegion | stopSet | join | isRunning
+  | startCheck | startKick | stopRegion | stopSet | join | joinSet | isRunning
   | setSettings (v : Nat) | getSettings | getPending | getStatus
   | exitBegin | releaseBegin
+  -- `stop_task` from outside the RPC worker
+  | extStopRegion | extStopSet
   deriving DecidableEq, Repr
 
 /-- runner operations may begin only on an available runner whose worker is idle -/
@@ -249,8 +258,13 @@ def step (s : State) : Act → Option State
     -- `thread.join()` blocks until the thread has ended; then `get_state`, asserts, `_joined = True`
     match s.joinCtx with
     | none => none
-    | some c =>
-      if s.pc = .ended then
+    | some c => if s.pc = .ended then some { s with rpc := .joinMid c } else none
+  | .joinSet =>
+    -- `assert state in (...)`; `self._joined = True`; raise / return (inside `release_rpc_object` whatever is
+    -- raised is logged and dropped, and the runner is gone)
+    match s.rpc with
+    | .joinMid c =>
+      if s.phase = .up then
         let ph : Phase := if c = .release then .removed else s.phase
         match s.st with
         | .completed => some { s with joined := true, rpc := .idle, phase := ph }
@@ -258,6 +272,7 @@ def step (s : State) : Act → Option State
         | .excRun    => some { s with joined := true, rpc := .idle, phase := ph }
         | _          => some { s with rpc := .idle, phase := ph }
       else none
+    | _ => none
   | .exitBegin =>
     -- `__exit__`: `self.stop(); self.join()`
     if s.free then some { s with rpc := .compStop .exit } else none
@@ -272,6 +287,16 @@ def step (s : State) : Act → Option State
   | .getSettings => if s.free then some s else none
   | .getPending  => if s.free then some s else none
   | .getStatus   => if s.free then some s else none
+  -- ---------------------------------------------------------------- stop_task outside the RPC worker
+  | .extStopRegion =>
+    match s.st with
+    | .excInit => some { s with shut := true }
+    | .initial => some { s with st := .stopped, stopFirst := true, shut := true }
+    | .ready   => some { s with st := .stopped, stopFirst := true, shut := true }
+    | _        => if s.pc = .init then some { s with shut := true }      -- `assert self.task is not None`
+                  else some { s with extMid := s.extMid + 1, shut := true }
+  | .extStopSet =>
+    if 0 < s.extMid then some { s with stopReq := true, extMid := s.extMid - 1 } else none
 
 /-- what the action returns / raises when taken in state `s` (meaningful when `step s a ≠ none`) -/
 def res (s : State) : Act → Res
@@ -298,6 +323,7 @@ def res (s : State) : Act → Res
   | .join       =>
     match s.st with
     | .completed => .unit | .stopped => .unit | .excRun => .taskRunError | _ => .assertionError
+  | .joinSet    => .none
   | .isRunning  => .bool (s.st == .running)
   | .setSettings _ => .unit
   | .getSettings => .val s.settings
@@ -305,6 +331,11 @@ def res (s : State) : Act → Res
   | .getStatus   => .val s.status
   | .exitBegin   => .none
   | .releaseBegin => .none
+  | .extStopRegion =>
+    match s.st with
+    | .excInit | .initial | .ready => .unit
+    | _ => if s.pc = .init then .assertionError else .pending
+  | .extStopSet => .unit
 
 /-- run a whole history -/
 def exec (s : State) : List Act → Option State
